@@ -19,10 +19,18 @@ class UF:
     def __call__(self, q):
         self.args.append(q)
         if self.ctx.symbolic:
-            k = Sym.lift(q).key()
+            qs = Sym.lift(q)
+            k = qs.key()
             if k not in self.table:
-                self.table[k] = self.ctx.fresh(self.tag)
-            return self.table[k]
+                r = self.ctx.fresh(self.tag)
+                # functional consistency with every earlier application: equal arguments give equal values
+                prev = list(self.table.values())
+                self.table[k] = (qs, r)
+                for (q2, r2) in prev:
+                    c = self.ctx.Implies(qs == q2, r == r2)
+                    if c is not True:
+                        self.ctx.add_def(c)
+            return self.table[k][1]
         return self.conc(float(q))
 
 
